@@ -45,7 +45,7 @@ def self_proof(kw, sessions, job_counts):
     t0 = time.time()
     for k, jobs in enumerate(list(job_counts) + [job_counts[0]]):
         d = os.path.join(out, f"selfproof-{k}")
-        n = run_native(exe, seed, jobs, d, sessions=sessions, step_log=True)
+        n = run_native(exe, seed, jobs, d, sessions=sessions, step_log=True, sweep=0)
         log = open(os.path.join(d, "step_log.txt")).read() if os.path.exists(os.path.join(d, "step_log.txt")) else ""
         runs.append((jobs, n, log, d))
     base = runs[0]
@@ -141,11 +141,41 @@ def _module_at(src_lines, line_no):
     return None
 
 
-def _rustc_metadata(rustc, so, src, out_dir):
-    r = subprocess.run([rustc, "--edition", "2021", "--crate-type", "lib", "--emit=metadata",
-                        "--out-dir", out_dir, "--extern", f"derive_ex={so}", src],
-                       env={"PATH": "/usr/bin:/bin"}, capture_output=True, text=True)
+RUSTC_TIMEOUT_S = 300
+
+
+def _rustc_metadata(rustc, so, src, out_dir, timeout=RUSTC_TIMEOUT_S):
+    """stderr of the compilation, or None if rustc did not finish within the limit."""
+    try:
+        r = subprocess.run([rustc, "--edition", "2021", "--crate-type", "lib", "--emit=metadata",
+                            "--out-dir", out_dir, "--extern", f"derive_ex={so}", src],
+                           env={"PATH": "/usr/bin:/bin"}, capture_output=True, text=True, timeout=timeout)
+    except subprocess.TimeoutExpired:
+        return None
     return r.stderr
+
+
+def _find_hanging_module(rustc, so, src, out_dir):
+    """Bisects the modules of a generated crate whose compilation does not finish, down to one
+    module that alone makes rustc hang. Returns its name or None."""
+    text = open(src).read()
+    head, *mods = re.split(r"(?m)^(?=mod m\d+ \{)", text)
+    while len(mods) > 1:
+        half = mods[:len(mods) // 2]
+        f = src[:-3] + ".bisect.rs"
+        open(f, "w").write(head + "".join(half))
+        if _rustc_metadata(rustc, so, f, out_dir, timeout=60) is None:
+            mods = half
+        else:
+            mods = mods[len(mods) // 2:]
+    if not mods:
+        return None
+    f = src[:-3] + ".bisect.rs"
+    open(f, "w").write(head + mods[0])
+    if _rustc_metadata(rustc, so, f, out_dir, timeout=60) is not None:
+        return None
+    m = re.match(r"mod (m\d+) \{", mods[0])
+    return m.group(1) if m else None
 
 
 def engine_r_t(kw, n_inputs, chunks):
@@ -176,6 +206,26 @@ def engine_r_t(kw, n_inputs, chunks):
         src_lines = open(f).read().splitlines()
         index = {e["module"]: e for e in json.load(open(f[:-3] + ".index.json"))}
         modules += len(index)
+        if err is None:
+            mod = _find_hanging_module(rustc, so, f, d)
+            ent = index.get(mod)
+            if not ent:
+                raise HarnessError(f"engine R: rustc did not finish {f} within {RUSTC_TIMEOUT_S}s and the "
+                                   "stall could not be attributed to a single module")
+            req = ent["req"]
+            disp = (f"#[derive_ex({req['attr']})] {req['item']}" if req["mode"] == "attr"
+                    else f"#[derive(Ex)] {req['item']}")
+            p = os.path.join(kw["replays"], "C16-real-hang-" + hashlib.sha1(disp.encode()).hexdigest()[:12] + ".json")
+            json.dump({"property": "C16", "class": "hang in the real host (rustc + shipped dylib)", "kind": "hang",
+                       "engine": "R", "detail": "rustc does not finish expanding this module (60 s limit, alone)",
+                       "root_seed": seed, "session_idx": 0, "original_step": 0, "original_steps_in_session": 1,
+                       "minimisation_trials": 0, "reproducible": True, "input": disp,
+                       "plan": {"reqs": [req], "steps": [{"req": 0, "thread": "main", "policy": {"kind": "keep"}}]}},
+                      open(p, "w"), indent=1)
+            classes.append({"class": "hang in the real host (rustc + shipped dylib)", "kind": "hang", "occurrences": 1,
+                            "replay": p, "reproducible": True, "input": disp,
+                            "detail": "rustc does not finish expanding this module"})
+            continue
         for kind, rx in (("panic", PANIC_RE), ("nomsg", NOMSG_RE)):
             for m in rx.finditer(err):
                 loc = LOC_RE.search(err, m.end())
@@ -223,10 +273,14 @@ def replay_real(kw, path):
     body = (f"#[derive_ex({req['attr']})]\n{req['item']}" if req["mode"] == "attr" else f"#[derive(Ex)]\n{req['item']}")
     src = os.path.join(d, "r.rs")
     open(src, "w").write("#![allow(warnings)]\nmod m0 {\nuse ::derive_ex::{derive_ex, Ex};\n" + body + "\n}\n")
-    err = _rustc_metadata(kw["rustc"], so, src, d)
-    rx = PANIC_RE if rf["kind"] == "panic" else NOMSG_RE
-    hit = rx.search(err)
-    print(err[:3000])
+    err = _rustc_metadata(kw["rustc"], so, src, d, timeout=60)
+    if rf["kind"] == "hang":
+        hit = err is None
+        print("rustc did not finish within 60 s" if hit else "rustc finished")
+    else:
+        rx = PANIC_RE if rf["kind"] == "panic" else NOMSG_RE
+        hit = rx.search(err or "")
+        print((err or "")[:3000])
     shutil.rmtree(d, ignore_errors=True)
     return bool(hit)
 
@@ -252,9 +306,12 @@ def engine_r_d(kw, n_inputs, processes):
     index = json.load(open(f[:-3] + ".index.json"))
 
     def expand(_):
-        r = subprocess.run(["rustc", "+nightly", "--edition", "2021", "--crate-type", "lib",
-                            "-Zunpretty=expanded", "--extern", f"derive_ex={so}", f],
-                           env=_env(), capture_output=True, text=True)
+        try:
+            r = subprocess.run(["rustc", "+nightly", "--edition", "2021", "--crate-type", "lib",
+                                "-Zunpretty=expanded", "--extern", f"derive_ex={so}", f],
+                               env=_env(), capture_output=True, text=True, timeout=RUSTC_TIMEOUT_S)
+        except subprocess.TimeoutExpired:
+            return "", "please recompile that crate (timed out)"
         return r.stdout, r.stderr
 
     with concurrent.futures.ThreadPoolExecutor(max_workers=min(processes, kw["jobs"])) as ex:
@@ -366,6 +423,12 @@ def run_extra(**kw):
                 "in verif_hooks, RandomState -> keyed hasher seam",
         "ran": True,
     }
+    # a hang or a crash found by engine N would only be found again, slowly, by the others
+    fatal = [c for c in kw["native"].get("classes", []) if c.get("kind") in ("hang", "crash")]
+    if fatal:
+        for e in ("self_proof", "R-T", "R-D", "M"):
+            res["engines"][e] = {"ran": False, "why": "engine N already reported a hang/crash class on this tree"}
+        return res
     try:
         if tier == "quick":
             info, classes, ev = self_proof(kw, sessions=16, job_counts=[kw["jobs"], 2])
